@@ -337,7 +337,8 @@ class TreeGen:
         var = None
         if rng.random() < self.explicit_p and kind != "Not":
             # explicit ids come in several shapes; some look like generated ones ("VAR…"), some sort before / after leaf names
-            var = rng.choice(["N{}", "N{}", "N{}", "VAR{}", "VARIANT_{}", "n {}", "Ω{}", "A-{}"]).format(self.key())
+            # (… and some sort in between the leaf names a..h, so that atoms and compounds interleave in id order)
+            var = rng.choice(["N{}", "N{}", "N{}", "VAR{}", "VARIANT_{}", "n {}", "Ω{}", "A-{}", "b{}", "e{}", "c_{}"]).format(self.key())
             if self.prefix_p and rng.random() < self.prefix_p:
                 self._fix_next = rng.choice([0, 1])     # this node's own variable is pre-fixed to a constant
         ast = {"$k": self.key()}
@@ -444,6 +445,25 @@ def gen_valid_signed_sum(rng):
         if well_formed(t):
             return a, o, t
     raise RuntimeError("no signed-sum model generated")
+
+
+def constant_leaf_variant(rng, a, t):
+    """the model with one of its leaves DECLARED constant, and an interpretation entry that says otherwise for it (an
+    interpretation may say anything about a leaf; it replaces the declared bounds): (ast, snapshot, leaf id, entry) or None"""
+    lv = leaves_of(t)
+    if not lv:
+        return None
+    name = rng.choice(sorted(lv))
+    c = rng.choice([0, 1, 1, 2, -1])
+    a2 = with_leaf_bounds(a, name, c, c)
+    try:
+        o2 = build(a2)
+        t2 = snap(o2)
+        if is_var(o2) or not well_formed(t2, allow_empty=True) or o2.errors():
+            return None
+    except Exception:
+        return None
+    return a2, t2, name, rng.choice([(c + 1, c + 1), (c - 1, c - 1), (c - 1, c + 1), (c + 1, c + 1)])
 
 
 def with_leaf_bounds(a, leaf_id, lo, hi):
@@ -588,7 +608,7 @@ def pick_in(rng, lo, hi):
     return rng.randint(lo, hi)
 
 
-def gen_interp(rng, t, total=False, allow_compound=True, in_bounds=True, ranges=True):
+def gen_interp(rng, t, total=False, allow_compound=True, in_bounds=True, ranges=True, compound_ranges=None):
     """id -> (lo, hi).  total: every leaf a constant."""
     lv = leaves_of(t)
     I = {}
@@ -606,5 +626,5 @@ def gen_interp(rng, t, total=False, allow_compound=True, in_bounds=True, ranges=
     if allow_compound and rng.random() < 0.3:
         cs = [c for c in compound_ids(t)]
         for c in rng.sample(cs, min(len(cs), rng.randint(1, 2))):
-            I[c] = rng.choice([(0, 0), (1, 1), (0, 1)]) if ranges else rng.choice([(0, 0), (1, 1)])
+            I[c] = rng.choice([(0, 0), (1, 1), (0, 1)]) if (ranges if compound_ranges is None else compound_ranges) else rng.choice([(0, 0), (1, 1)])
     return I
